@@ -336,7 +336,10 @@ func TestVerif_C07_Allocator(t *testing.T) {
 		pick := func() int {
 			l := liveOnes()
 			if len(l) == 0 {
-				rt.Skip()
+				// every allocator is stopped: a node (re)starts; the stop action keeps one alive once the
+				// bound of six allocators per case is reached, so this is always possible
+				start()
+				l = liveOnes()
 			}
 			return l[rapid.IntRange(0, len(l)-1).Draw(rt, "allocator")]
 		}
